@@ -101,8 +101,9 @@ Proof.
     - (* CleanEnd *)
       destruct (drop m) as [m1|x] eqn:Ed; [|discriminate]. inversion Ea; subst m1.
       destruct (drop_J m m' Ed Hl) as (A & B & C).
-      + apply orb_true_iff in He as [Hs|Hs].
+      + apply orb_true_iff in He as [Hs|Hs]; [apply orb_true_iff in Hs as [Hs|Hs]|].
         * apply st_eqb_eq in Hs. subst s. simpl in Hw. destruct Hw as (b & [Hw|Hw] & Hb); right; rewrite Hw; simpl; exact Hb.
+        * apply st_eqb_eq in Hs. subst s. simpl in Hw. right. rewrite Hw. reflexivity.
         * left. apply rev_nil_inv. eapply empty_st_wp; eauto.
       + split; [exact A|]. split; [exact B|]. rewrite C; exact Hrest.
     - (* SetEnd *)
@@ -294,7 +295,7 @@ Qed.
 Lemma adv_check_all : forallb (fun mb => forallb (fun f => adv_check (table mb f)) (seq 0 8)) [false; true] = true.
 Proof. vm_compute. reflexivity. Qed.
 
-Lemma ops_check_base : forallb (fun f => ops_check (table false f)) (seq 0 8) = true.
+Lemma ops_check_all : forallb (fun mb => forallb (fun f => ops_check (table mb f)) (seq 0 8)) [false; true] = true.
 Proof. vm_compute. reflexivity. Qed.
 
 Lemma drop_free_retain : drop_free (table false 0) = true.
@@ -306,5 +307,10 @@ Proof.
   specialize (H mb ltac:(destruct mb; simpl; auto)). rewrite forallb_forall in H. apply H. apply in_seq. lia.
 Qed.
 
+Lemma ops_check_cfg_mb mb f : (f < 8)%nat -> ops_check (table mb f) = true.
+Proof.
+  intros Hf. pose proof ops_check_all as H. rewrite forallb_forall in H.
+  specialize (H mb ltac:(destruct mb; simpl; auto)). rewrite forallb_forall in H. apply H. apply in_seq. lia.
+Qed.
 Lemma ops_check_cfg f : (f < 8)%nat -> ops_check (table false f) = true.
-Proof. intros Hf. pose proof ops_check_base as H. rewrite forallb_forall in H. apply H. apply in_seq. lia. Qed.
+Proof. apply ops_check_cfg_mb. Qed.
